@@ -36,9 +36,12 @@ HdrU(id) ==
 
 Payload(n) == IF n <= 300 THEN [i \in 1..n |-> (i * 7) % 256] ELSE <<0 - 2, n \div 65536, (n \div 256) % 256, n % 256>>   \* token: harness expands
 Exts == { [ext |-> <<>>, extnil |-> TRUE, extempty |-> FALSE], [ext |-> <<>>, extnil |-> FALSE, extempty |-> TRUE], [ext |-> <<9, 8, 7>>, extnil |-> FALSE, extempty |-> FALSE] }
-KeyKinds(alg) == IF alg \in {0 - 7, 0 - 35, 0 - 36} THEN {"builtin", "cosekey", "cryptosigner"} ELSE IF alg = 0 - 8 THEN {"builtin", "cosekey"} ELSE {"builtin"}
-S(alg, kk) == [kind |-> kk, name |-> "s", alg |-> alg, fault |-> ""]
-V(alg, kk) == [kind |-> (IF kk = "cosekey" THEN "cosekey" ELSE "builtin"), name |-> "v", alg |-> alg, fault |-> ""]
+\* "rsa2050": an RSA key whose modulus length is no multiple of 8 bits (adequate: above the 2048-bit minimum)
+KeyKinds(alg) == IF alg \in {0 - 7, 0 - 35, 0 - 36} THEN {"builtin", "cosekey", "cryptosigner"} ELSE IF alg = 0 - 8 THEN {"builtin", "cosekey"}
+                 ELSE IF alg \in {0 - 37, 0 - 38, 0 - 39} THEN {"builtin", "rsa2050"} ELSE {"builtin"}
+S(alg, kk) == IF kk = "rsa2050" THEN [kind |-> "builtin", key |-> "rsa2050", name |-> "s", alg |-> alg, fault |-> ""] ELSE [kind |-> kk, name |-> "s", alg |-> alg, fault |-> ""]
+V(alg, kk) == IF kk = "rsa2050" THEN [kind |-> "builtin", key |-> "rsa2050", name |-> "v", alg |-> alg, fault |-> ""]
+              ELSE [kind |-> (IF kk = "cosekey" THEN "cosekey" ELSE "builtin"), name |-> "v", alg |-> alg, fault |-> ""]
 Dummy == <<170, 187>>
 
 \* header shape 8: both maps nil (the zero value of Headers), as callers of the Sign1 helpers commonly pass
